@@ -130,7 +130,42 @@ class E1(Base):
     LATE_FIN = 0.0
     OBS_KINDS = None
 
+    #: share of runs drawn from the large-N stratum (cheap unit counts)
+    LARGE = {"quick": 0.04, "thorough": 0.08}
+    LARGE_N = {"quick": (129, 420), "thorough": (129, 800)}
+
+    def draw_large(self, rng, tier):
+        """Large step counts with unit counts that keep planning cheap."""
+        lo, hi = self.LARGE_N[tier]
+        N = rng.randint(lo, hi)
+        v = rng.choice(("Revolve", "Revolve", "DiskRevolve",
+                        "PeriodicDiskRevolve", "HRevolve", "MultistageMax",
+                        "MultistageRev", "MixedRAM", "MixedDISK", "TwoLevel",
+                        "SingleMemory", "SingleDiskCopy", "SingleDiskMove"))
+        cfg = draw_cfg(rng, v, 16)
+        cfg["N"] = N
+        p = cfg["p"]
+        if "uf" in p:
+            p["s"] = rng.choice((1, 1, 2))
+            if "d" in p:
+                p["d"] = rng.choice((0, 1))
+            if N > 300:
+                p["s"] = 1
+        elif cfg["cls"] == "Mixed":
+            cfg["N"] = N = min(N, 260)
+            p["s"] = rng.choice((1, 2, 3))
+        elif cfg["cls"] == "Multistage":
+            tot = rng.randint(1, 12)
+            p["r"] = rng.randint(0, tot)
+            p["d"] = tot - p["r"]
+        elif cfg["cls"] == "TwoLevel":
+            p["period"] = rng.choice((1, 2, 7, 16, 50, N // 3, N, N + 1))
+            p["b"] = rng.choice((0, 1, 2, 3, 6))
+        return cfg, draw_passes(rng, cfg, 2)
+
     def draw_slot(self, rng, tier):
+        if rng.random() < self.LARGE[tier]:
+            return self.draw_large(rng, tier)
         nmax, rfmax = self.SIZES[tier]
         if self.VARIANT_WEIGHTS:
             names = list(self.VARIANT_WEIGHTS)
